@@ -83,6 +83,7 @@ class SimThread:
 
 def _mgr_start(self):
     self._sim_actor = k().spawn(f"manager@{k().cur_proc().pid}", self.run, role="manager")
+    self._sim_actor.pseudo_held = ("TMgr",)
     k().park("thread.start")
 
 
@@ -90,6 +91,8 @@ def _mgr_join(self, timeout=None):
     a = getattr(self, "_sim_actor", None)
     if a is None:
         return
+    if timeout is None:
+        k().note_wait("TMgr")
     k().park("thread.join", enabled=lambda: not a.alive(), can_timeout=timeout is not None)
 
 
@@ -164,6 +167,8 @@ class SimProcess:
 
     def join(self, timeout=None):
         st = self._st
+        if timeout is None:
+            k().note_wait("PWorker")
         k().park("proc.join", enabled=lambda: not st.alive, can_timeout=timeout is not None)
 
     @property
@@ -233,9 +238,12 @@ BANKED = ("_CURRENT_DEPTH", "_global_shutdown", "_threads_wakeups", "_global_shu
           "process_pool_executor_at_exit")
 
 
+_gsl_names = __import__("itertools").count(1)
+
+
 def fresh_bank():
     return {"_CURRENT_DEPTH": 0, "_global_shutdown": False, "_threads_wakeups": weakref.WeakKeyDictionary(),
-            "_global_shutdown_lock": K.SimLock(), "process_pool_executor_at_exit": None}
+            "_global_shutdown_lock": K.SimLock(name=f"/global-shutdown-{next(_gsl_names)}"), "process_pool_executor_at_exit": None}
 
 
 def switch_hook(old, new):
@@ -470,7 +478,7 @@ def new_kernel(chooser, max_steps=4000, trace_ops=False):
     kern.root.bank = fresh_bank()
     for n in BANKED:
         setattr(pe, n, kern.root.bank[n])
-    re_._executor_lock = K.SimRLock()
+    re_._executor_lock = K.SimRLock(name="/factory-lock")
     re_._executor = None
     re_._executor_kwargs = None
     re_._next_executor_id = 0
